@@ -30,6 +30,16 @@ pub(crate) fn gen(r: &mut Rng) -> Case {
     let mut word = rand_word(r, &WordCfg { max_sylls: 5, ..WordCfg::default() });
     // now and then a run longer than overlong (four or five copies - what two long vowels leave when a boundary between them goes)
     if r.chance(1, 8) { word = word.replacen('ː', if r.chance(1, 2) { "ːːː" } else { "ːːːː" }, 1); }
+    // and now and then the same vowel on both sides of a boundary, the right one long or overlong (seed C14-f: the run that `$ > *`
+    // leaves must keep every copy)
+    if r.chance(1, 8) {
+        let cs: Vec<(usize, char)> = word.char_indices().collect();
+        if let Some(k) = (1..cs.len().saturating_sub(1)).find(|&k| cs[k].1 == '.' && !cs[k - 1].1.is_ascii_digit() && cs[k - 1].1 != 'ː' && !matches!(cs[k + 1].1, 'ˈ' | 'ˌ')) {
+            let v = *r.pick(&["a", "i", "u"][..]);
+            let ins = format!("{v}.{v}{}", if r.chance(1, 2) { "ːː" } else { "ː" });
+            word.replace_range(cs[k].0..cs[k].0 + 1, &ins);
+        }
+    }
     if r.chance(3, 5) {
         let k = r.range(1, 2);
         let ins: Vec<&str> = (0..k).map(|_| *r.pick(&SEG_IN)).collect();
